@@ -160,7 +160,7 @@ theorem pot_dispatch {l : Str} {c0 c : Cfg} (hH : HandlersOK c) (hR : ReadyHandl
           cases h <;> first | rfl | cases happ
         have e1 : decide (i ≤ k0 c0 + s.ih) = true := by simp; omega
         have e2 : decide (i + 1 ≤ k0 c0 + s.ih) = true := by simp; omega
-        rw [this]; simp [Instr.pot, hc, hr, e1, e2]
+        rw [this]; simp [Instr.pot, hr, e1, e2]
       · obtain ⟨m, rfl⟩ : ∃ m, i = k0 c0 + m := ⟨i - k0 c0, by omega⟩
         rw [List.getElem?_append_right (by rw [hk]; omega), hk, Nat.add_sub_cancel_left] at hg
         have hlt : m < c.A.ihs.length := by
@@ -169,7 +169,7 @@ theorem pot_dispatch {l : Str} {c0 c : Cfg} (hH : HandlersOK c) (hR : ReadyHandl
         rw [List.getElem?_map, List.getElem?_range hlt] at hg
         simp only [Option.map_some, Option.some.injEq, Prod.mk.injEq] at hg
         obtain ⟨rfl, rfl⟩ := hg
-        simp only [Instr.pot, hc, hr, if_false, if_true]
+        simp only [Instr.pot, hr, if_true]
         rcases Nat.lt_trichotomy s.ih m with h1 | h1 | h1
         · have a1 : ¬ s.ih = m := by omega
           have a2 : ¬ k0 c0 + m ≤ k0 c0 + s.ih := by omega
